@@ -106,7 +106,7 @@ def run(ctx):
         ctx.breakage("translation", "substitutor / from_native extraction failed (d42/utils/_from_native.py or the scalar "
                      "visit_* methods of d42/substitution/_substitutor.py no longer consist of the recognised idioms): " + msg)
     runner.prove(ctx, MODULE, THEOREMS, FILES)
-    cases = substcorr.batch(ctx, ctx.n(90, 700), customs=True) + substcorr.list_form_cases(ctx) + substcorr.open_dict_any_cases(ctx, ctx.n(150, 1500)) + substcorr.untyped_pair_cases(ctx) + substcorr.untyped_edge_cases(ctx) + substcorr.untyped_zoo_cases(ctx) + substcorr.defaulting_dict_subst_cases(ctx) + substcorr.subclass_and_degenerate_cases(ctx) + substcorr.special_key_subst_cases(ctx) + substcorr.list_ellipsis_position_cases(ctx) + substcorr.relaxed_marker_position_cases(ctx) + substcorr.list_window_cases(ctx) + substcorr.float_precision_cases(ctx) + substcorr.many_errors_cases(ctx) + substcorr.list_partial_dict_cases(ctx)
+    cases = substcorr.batch(ctx, ctx.n(90, 700), customs=True) + substcorr.list_form_cases(ctx) + substcorr.open_dict_any_cases(ctx, ctx.n(150, 1500)) + substcorr.untyped_pair_cases(ctx) + substcorr.untyped_edge_cases(ctx) + substcorr.contains_scan_cases(ctx) + substcorr.untyped_zoo_cases(ctx) + substcorr.defaulting_dict_subst_cases(ctx) + substcorr.subclass_and_degenerate_cases(ctx) + substcorr.special_key_subst_cases(ctx) + substcorr.list_ellipsis_position_cases(ctx) + substcorr.relaxed_marker_position_cases(ctx) + substcorr.list_window_cases(ctx) + substcorr.float_precision_cases(ctx) + substcorr.many_errors_cases(ctx) + substcorr.list_partial_dict_cases(ctx)
     for c in cases:
         substcorr.run_real(c)
     ctx.count("skipped_unencodable", sum(1 for c in cases if c.skip))
